@@ -139,6 +139,10 @@ struct ValMod {
 struct VoidRead {
     void operator()(const P& p) const;
 };
+// returns a reference into the protected object: modify_async then yields std::future<P&>
+struct RefMod {
+    P& operator()(P& p) const;
+};
 struct ValRead {
     int operator()(const P& p) const;
 };
@@ -237,6 +241,16 @@ void use_all(const P& p)
     ag.store(P(p));
     ag = p;
     ag = P(p);
+    // non-const lvalue arguments: the forwarding parameter is deduced as P&, the caller keeps its object
+    P q(p);
+    g.store(q);
+    g = q;
+    go.store(q);
+    go = q;
+    og.store(q);
+    og = q;
+    ag.store(q);
+    ag = q;
     P e(p);
     (void)ag.compare_exchange(e, p);
     (void)ag.compare_exchange(e, P(p));
@@ -276,6 +290,7 @@ void use_all(const P& p)
     dg.modify_detach(vm);
     (void)dg.modify_async(VoidMod{});
     (void)dg.modify_async(ValMod{});
+    (void)dg.modify_async(RefMod{});
     lr.modify(VoidMod{});
     lr.modify(vm);
     og.modify(GenericMod{});
@@ -390,6 +405,8 @@ template void
 // ------------------------------------------------------------ concurrency
 #if VP == 1
 using CX = int;
+#elif VP == 0
+using CX = vdrv::Hostile;       // a payload whose copy may throw: what is user code inside the concurrency classes shows
 #else
 using CX = std::string;
 #endif
